@@ -93,8 +93,9 @@ def attr_of(path):
         return "caller:" + (parts[2] if len(parts) > 2 else "?")
     parts = path.split(".")
     for p in parts:
-        if p and not p.startswith("objs"):
-            return p.split("[")[0]
+        name = p.split("[")[0]
+        if name and name != "objs":
+            return name
     return path
 
 
